@@ -292,6 +292,11 @@ class Model():
                     return
                 field.remove(asset)
 
+        if found:
+            # The asset is no longer part of the association
+            asset.associations = [assoc for assoc in asset.associations
+                if assoc is not association]
+
         if not found:
             raise LookupError(f'Asset "{asset.name}"({asset.id}) is not '
                 'part of the association provided.')
